@@ -79,6 +79,14 @@ fn c17() -> Property {
             note: "real client <-> real listener with seeded channel-max on both sides",
             },
             Variant {
+                name: "channel-max-listener-vs-scripted-peer",
+                weight: 1,
+                make: || Box::pin(scen::c17::run_channel_max_listener()),
+                max_steps: 3_000_000,
+                cases_per_seed: 1,
+            note: "real listener <-> scripted peer that begins sessions up to the agreed channel-max and beyond: the listener's answering begins are bound by it",
+            },
+            Variant {
                 name: "heartbeat-vs-scripted-peer",
                 weight: 2,
                 make: || Box::pin(scen::c17::run_heartbeat()),
@@ -265,6 +273,14 @@ fn c19() -> Property {
                 max_steps: 3_000_000,
                 cases_per_seed: 1,
                 note: "scripted client that sends sasl-init (PLAIN, right or wrong password), AMQP header and open without waiting",
+            },
+            Variant {
+                name: "replayed-exchange-vs-listener",
+                weight: 1,
+                make: || Box::pin(scen::c19::run_replay_client()),
+                max_steps: 3_000_000,
+                cases_per_seed: 1,
+                note: "a recorded successful SCRAM exchange is replayed byte for byte on a second connection to the same acceptor",
             },
         ],
         quick_runs: 3_000,
